@@ -1,38 +1,61 @@
 """C10 — No call-breaking signature change goes unreported.
 
-(T) Gen/C10_tables.v regenerated from diff.py (kind sets, `swallowed`, `incompatible_kind`)
-(C) model fdiff            vs  griffe.find_breaking_changes on one-function modules produced by griffe.visit
-(O) model binds            vs  real CPython calls of the compiled definition
+(T) Gen/C10_tables.v + Gen/C10_rules.v regenerated from diff.py / expressions.py (kind sets, `swallowed`,
+    `incompatible_kind`, old-side members of it, skeleton shape, ExprFormatted fields)
+(C) model fdiff_m (parameter rules + default equality by the implementation's key)
+        vs  griffe.find_breaking_changes on one-function modules produced by griffe.visit
+(O) model binds            vs  real CPython calls of the compiled definition (0..5 positionals, keyword subsets, repeated keywords)
+    model ast-key diff     vs  ast.dump inequality of the defaults (abstraction python ast -> model tree is injective)
+    model dval             vs  eval() of closed integer arithmetic
+    model witness calls    vs  real calls (a reported, non-excused breakage comes with a call old binds and new rejects)
 direct: some call binds old and not new (real calls)  =>  find_breaking_changes reports something, unless the pair
-        satisfies a known-gap predicate (F2/F4/F5/F6/F7 as evaluated by the extracted model).
+        satisfies a known-gap predicate (as evaluated by the extracted model of the unchanged code);
+        a default whose compiled expression changed => a default breakage is reported for that parameter (unless F8);
+        moved positional / optional made required => reported; identical => silent; reports name changed parameters.
 """
 from __future__ import annotations
 
+import ast
+import io
 import itertools
+import json
+import tokenize
 
+from harness.common import framework
 from harness.translate import c10_tables
 
 ID = "C10"
-LEVEL_TEXT = ("Theorems over all signatures and all call shapes: identical signatures are silent; every reported parameter breakage names a "
-              "parameter that really changed; moved positional / changed default / optional-made-required are always reported; completeness "
-              "(a call bound by old and rejected by new => something is reported) for every failure class of CPython's binder, modulo five "
-              "decidable known-gap predicates (findings F2, F4, F5, F6, F7) whose witnesses are proved by computation. The kind tables and the "
-              "swallowed/incompatible-kind rules are regenerated from diff.py on every run; the model is tied to the code by an exhaustive "
-              "<=2-parameter sweep (190k pairs) plus random pairs, and the binder model to real CPython calls.")
-LEVEL_NOTE = ("Trusted: Coq kernel, extraction, translator harness/translate/c10_tables.py, the harness mapping source text -> model signature, CPython "
-              "calls as binder authority. Return-annotation breakages and non-parameter breakages are outside this property. Keyword names in "
-              "calls are distinct; calls use at most 3 positionals in the correspondence (the theorems have no such bound).")
-MODEL = ("Model.C10_diff", "run_C10")
+LEVEL_TEXT = ("Theorems over all signatures and all calls (any number of positionals, any keyword list, repeated keywords rejected): identical "
+              "signatures are silent; every reported parameter breakage names a parameter that really changed, and comes with an explicit witness "
+              "call that old binds and new rejects unless a documented excuse holds (default/position/kind change, or the parameter only took over "
+              "a slot every old call filled); moved positional / changed default / optional-made-required are always reported, the default rule "
+              "for ANY equality on defaults that refines identity of the compiled expression (the code's Expr/str equality does, except for "
+              "f-string conversion/format spec: finding F8; comparing rendered text does not: counter-example proved); completeness (a call bound "
+              "by old and rejected by new => something is reported) for every failure class of CPython's binder, modulo decidable known-gap "
+              "predicates (F2, F4-F7) whose witnesses are proved by computation; with the proposed collision rule (fix commit prepared) only F2 "
+              "remains, and every report of that rule is call-breaking. Kind tables, swallowed/incompatible-kind rules, old-side rules and the "
+              "skeleton of _function_incompatibilities are regenerated/checked from diff.py on every run; the model is tied to the code by an "
+              "exhaustive <=2-parameter sweep, random <=5-parameter pairs and a default-expression grammar, the binder model to real CPython calls.")
+LEVEL_NOTE = ("Trusted: Coq kernel, extraction, translator harness/translate/c10_tables.py, the harness abstraction source text -> model signature "
+              "(python ast -> tree with interned tags; checked injective against ast.dump on every pair), CPython calls / ast / eval as authority. "
+              "Return-annotation and non-parameter breakages are outside this property. The three non-kind rules (required, moved, default guard) "
+              "are modelled by hand (their `if` tests are shape-checked by the translator, not translated). Defaults of inspected (non-visited) "
+              "objects are plain strings and are not generated. The correspondence uses calls with at most 5 positionals (theorems: unbounded).")
+MODEL = ("Model.C10_ext", "run_C10")
 COQ_TARGETS = ["Proofs/C10_diff.vo", "Proofs/C10_complete.vo"]
-RULE = ("exhaustive well-formed signatures over names {a,b,c}, 5 kinds, default in {none,1,2}, <=2 parameters (436 signatures, all ordered pairs) "
-        "x 64 call shapes (0..3 positionals x subsets of {a,b,c,z} up to size 3); seeded random pairs of <=4-parameter signatures (thorough: also the "
-        "<=3-parameter space sampled). A pair is non-trivial when some call binds old and not new, or fdiff is non-empty; distinct by (old,new) source text")
-TRUSTED = ["translator harness/translate/c10_tables.py (whitelisted AST shapes of diff.py; fails closed)"]
-ASSUMPTIONS = ["keyword names in a call are distinct (Python syntax guarantees it for explicit keywords)",
-               "parameter defaults are compared as source text atoms, as find_breaking_changes does for statically loaded code"]
+RULE = ("exhaustive well-formed signatures over names {a,b,c}, 5 kinds, default in {none,1,2}, <=2 parameters (436 signatures; quick: all identical "
+        "pairs + all pairs of a seeded 150-subset; thorough: all ordered pairs) x call shapes (0..5 positionals x keyword subsets of {a,b,c,y,z} "
+        "up to size 3, plus repeated keywords); seeded random/mutated pairs of <=5-parameter signatures; pairs whose defaults come from an "
+        "expression grammar (operators with/without grouping, calls, attributes, tuples, strings vs names, f-strings) mutated by leaf/operator/"
+        "regrouping(parenthesis insertion or removal in the source)/swap/wrap/retype edits; all ordered pairs of a catalogue of ~115 default forms. "
+        "A pair is non-trivial when some call binds old and not new, or something is reported, or a default changed; distinct by (old,new) source text")
+TRUSTED = ["translator harness/translate/c10_tables.py (whitelisted AST shapes of diff.py / expressions.py; fails closed)",
+           "abstraction python ast -> model default tree (harness/props/c10.py:abstract), checked injective w.r.t. ast.dump on every explored pair"]
+ASSUMPTIONS = ["functions are loaded by static analysis (griffe.visit): defaults are str (constants, by repr) or Expr trees",
+               "keyword names outside the parameter names are represented by one fresh name (the binder cannot tell them apart)"]
 TRANSLATOR_NAME = "harness/translate/c10_tables.py"
 
-NAMES = ["a", "b", "c", "z"]
+NAMES = ["a", "b", "c", "z", "y"]
 KN = ["PO", "PK", "VP", "KO", "VK"]
 
 
@@ -40,6 +63,8 @@ def translate(ctx):
     c10_tables.translate(ctx)
 
 
+# ------------------------------------------------------------------------------------------------ signatures
+# a signature is a tuple of (name, kind, default) with default = 0 (none) or the default's source text
 def sigs(maxn, names=("a", "b", "c")):
     out = []
     for n in range(maxn + 1):
@@ -47,7 +72,7 @@ def sigs(maxn, names=("a", "b", "c")):
             for ks in itertools.product(range(5), repeat=n):
                 if list(ks) != sorted(ks) or ks.count(2) > 1 or ks.count(4) > 1:
                     continue
-                for ds in itertools.product([0, 1, 2], repeat=n):
+                for ds in itertools.product([0, "1", "2"], repeat=n):
                     ok = True
                     seen_def = False
                     for k, d in zip(ks, ds):
@@ -63,29 +88,45 @@ def sigs(maxn, names=("a", "b", "c")):
     return out
 
 
-def random_sig(rng, maxn=4):
-    n = rng.randint(0, maxn)
-    nm = rng.sample(NAMES, n)
-    ks = sorted(rng.choice(range(5)) for _ in range(n))
-    while ks.count(2) > 1:
-        ks.remove(2)
-    while ks.count(4) > 1:
-        ks.remove(4)
-    nm = nm[:len(ks)]
-    out = []
-    seen_def = False
-    for x, k in zip(nm, ks):
-        d = 0
-        if k in (0, 1):
-            d = rng.choice([0, 1, 2]) if not seen_def else rng.choice([1, 2])
-            seen_def = seen_def or d > 0
-        elif k == 3:
-            d = rng.choice([0, 0, 1, 2])
-        out.append((x, KN[k], d))
+def normalise(s, dflt="1"):
+    """Sort by kind, drop surplus variadics, give positional parameters after a default a default."""
+    order = {k: i for i, k in enumerate(KN)}
+    s = sorted(s, key=lambda p: order[p[1]])
+    out, seen_def, vp, vk, seen = [], False, False, False, set()
+    for nm, k, d in s:
+        if nm in seen:
+            continue
+        if k == "VP":
+            if vp:
+                continue
+            vp, d = True, 0
+        if k == "VK":
+            if vk:
+                continue
+            vk, d = True, 0
+        if k in ("PO", "PK"):
+            if seen_def and not d:
+                d = dflt
+            seen_def = seen_def or bool(d)
+        seen.add(nm)
+        out.append((nm, k, d))
     return tuple(out)
 
 
-def src(sig):
+def random_sig(rng, maxn=5, dgen=None):
+    n = rng.randint(0, maxn)
+    nm = rng.sample(NAMES, n)
+    s = []
+    for x in nm:
+        k = rng.choice(KN)
+        d = 0
+        if k in ("PO", "PK", "KO") and rng.random() < 0.5:
+            d = dgen(rng) if dgen else rng.choice(["1", "2"])
+        s.append((x, k, d))
+    return normalise(s, dgen(rng) if dgen else "1")
+
+
+def src(sig, plain=False):
     parts = []
     for i, (nm, k, d) in enumerate(sig):
         s = nm
@@ -94,7 +135,7 @@ def src(sig):
         if k == "VK":
             s = "**" + nm
         if d:
-            s += f"={d}"
+            s += "=0" if plain else f"={d}"
         if k == "KO" and not any(q[1] == "VP" for q in sig) and not any(q[1] == "KO" for q in sig[:i]):
             parts.append("*")
         parts.append(s)
@@ -103,11 +144,376 @@ def src(sig):
     return "def f(" + ", ".join(parts) + "): pass"
 
 
+def parse_sig(text):
+    """`def f(...)` source -> signature tuple (defaults as the source segment of the default)."""
+    fn = ast.parse(text).body[0]
+    a = fn.args
+    out = []
+    pos = [(x, "PO") for x in a.posonlyargs] + [(x, "PK") for x in a.args]
+    nd = len(pos) - len(a.defaults)
+    for i, (x, k) in enumerate(pos):
+        out.append((x.arg, k, ast.unparse(a.defaults[i - nd]) if i >= nd else 0))
+    if a.vararg:
+        out.append((a.vararg.arg, "VP", 0))
+    for x, d in zip(a.kwonlyargs, a.kw_defaults):
+        out.append((x.arg, "KO", ast.unparse(d) if d is not None else 0))
+    if a.kwarg:
+        out.append((a.kwarg.arg, "VK", 0))
+    return tuple(out)
+
+
+# ------------------------------------------------------------------------------------------------ defaults: python ast -> model tree
+ARITH = {"Add": 1, "Sub": 2, "Mult": 3, "FloorDiv": 4, "Mod": 5, "Pow": 6}
+UNARY = {"USub": 7, "UAdd": 8}
+NIL = ["a", 0]
+_intern: dict = {}
+
+
+def intern(key) -> int:
+    if key not in _intern:
+        _intern[key] = 100 + len(_intern)
+    return _intern[key]
+
+
+def _lst(items):
+    out = NIL
+    for it in reversed(items):
+        out = ["d", 9, it, out]
+    return out
+
+
+def abstract(node):
+    """The tree CPython compiles, as a model term (Model/C10_defaults.v:dexp). Everything ast.dump shows is kept."""
+    if node is None:
+        return NIL
+    if isinstance(node, ast.Constant):
+        v = node.value
+        if type(v) is int and abs(v) < 10 ** 12:
+            return ["n", v]
+        return ["a", intern(("Constant", type(v).__name__, repr(v), node.kind))]
+    if isinstance(node, ast.Name):
+        return ["a", intern(("Name", node.id))]
+    if isinstance(node, ast.BinOp) and type(node.op).__name__ in ARITH:
+        return ["d", ARITH[type(node.op).__name__], abstract(node.left), abstract(node.right)]
+    if isinstance(node, ast.UnaryOp) and type(node.op).__name__ in UNARY:
+        return ["d", UNARY[type(node.op).__name__], abstract(node.operand), NIL]
+    if isinstance(node, ast.FormattedValue):
+        return ["f", abstract(node.value), node.conversion + 1, abstract(node.format_spec)]
+    scal, kids = [type(node).__name__], []
+    for name, val in ast.iter_fields(node):
+        if isinstance(val, ast.expr_context):
+            continue
+        if isinstance(val, (ast.operator, ast.unaryop, ast.cmpop, ast.boolop)):
+            scal.append((name, type(val).__name__))
+        elif isinstance(val, ast.AST):
+            kids.append(abstract(val))
+        elif isinstance(val, list):
+            if val and all(isinstance(x, (ast.operator, ast.unaryop, ast.cmpop, ast.boolop)) for x in val):
+                scal.append((name, tuple(type(x).__name__ for x in val)))
+            else:
+                kids.append(_lst([abstract(x) if isinstance(x, ast.AST) or x is None else ["a", intern(("scalar", repr(x)))] for x in val]))
+        elif val is None:
+            kids.append(NIL)
+        else:
+            scal.append((name, repr(val)))
+    return ["d", intern(tuple(scal)), NIL, _lst(kids)]
+
+
+ARITH_NODES = (ast.Constant, ast.BinOp, ast.UnaryOp, ast.Add, ast.Sub, ast.Mult, ast.FloorDiv, ast.Mod, ast.Pow, ast.USub, ast.UAdd, ast.Load, ast.Expression)
+
+
+class DInfo:
+    """Everything the check needs to know about one default's source text."""
+    cache: dict = {}
+
+    def __init__(self, text):
+        self.text = text
+        self.tree = ast.parse(text, mode="eval").body
+        self.dump = ast.dump(self.tree)
+        self.sexp = abstract(self.tree)
+        self.key = json.dumps(self.sexp)
+        self.classes = sorted({type(n).__name__ for n in ast.walk(self.tree) if isinstance(n, ast.expr)})
+        self.arith = all(isinstance(n, ARITH_NODES) and (not isinstance(n, ast.Constant) or type(n.value) is int) for n in ast.walk(self.tree))
+        self.value = None          # ("int", z) | ("exc", name) | ("other", repr) for closed integer arithmetic
+        if self.arith and not _pow_too_big(self.tree):
+            try:
+                v = eval(compile(ast.Expression(self.tree), "<default>", "eval", dont_inherit=True), {"__builtins__": {}})  # noqa: S307
+                self.value = ("int", v) if type(v) is int else ("other", repr(v))
+            except Exception as e:  # noqa: BLE001
+                self.value = ("exc", type(e).__name__)
+
+    @classmethod
+    def of(cls, text):
+        if text not in cls.cache:
+            cls.cache[text] = DInfo(text)
+        return cls.cache[text]
+
+
+def _pow_too_big(tree):
+    return sum(isinstance(n, ast.Pow) for n in ast.walk(tree)) > 2
+
+
 def enc(sig):
-    return [[NAMES.index(nm), k, [0] if k in ("VP", "VK") else ([d] if d else [])] for nm, k, d in sig]
+    out = []
+    for nm, k, d in sig:
+        if k in ("VP", "VK"):
+            out.append([NAMES.index(nm), k, [NIL]])
+        else:
+            out.append([NAMES.index(nm), k, [DInfo.of(d).sexp] if d else []])
+    return out
 
 
-CALLS = [(n, kw) for n in range(4) for r in range(4) for kw in itertools.combinations(NAMES, r)]
+def enc_plain(sig):
+    return [[NAMES.index(nm), k, [0] if k in ("VP", "VK") else ([1] if d else [])] for nm, k, d in sig]
+
+
+# ------------------------------------------------------------------------------------------------ default-expression grammar
+LEAVES = ["0", "1", "2", "3", "10", "60", "x", "y", "'x'", "'y'", "None", "True", "1.5", "x.y", "b'x'", "...", "()"]
+INTS = ["0", "1", "2", "3", "5", "10", "60"]
+BINOPS = ["+", "-", "*", "//", "%", "**", "/", "@", "<<", ">>", "&", "|", "^"]
+ARITHOPS = ["+", "-", "*", "*", "-", "+", "//", "%", "**"]
+CMPOPS = ["<", "==", "in", "is not", "not in", ">="]
+
+
+def gen_expr(rng, depth=3, arith=False):
+    """Fully parenthesised source of a random expression."""
+    if depth == 0 or rng.random() < 0.25:
+        return rng.choice(INTS if arith else LEAVES)
+    g = lambda d=depth - 1: gen_expr(rng, d, arith)  # noqa: E731
+    if arith:
+        r = rng.random()
+        if r < 0.8:
+            op = rng.choice(ARITHOPS)
+            rhs = rng.choice(["0", "1", "2", "3"]) if op == "**" else g()
+            return f"({g()} {op} {rhs})"
+        return f"({rng.choice(['-', '-', '+'])}{g()})"
+    r = rng.random()
+    if r < 0.28:
+        return f"({g()} {rng.choice(BINOPS)} {g()})"
+    if r < 0.38:
+        return f"({rng.choice(['-', '+', '~', 'not '])}{g()})"
+    if r < 0.46:
+        op = rng.choice([" and ", " or "])
+        return "(" + op.join(g() for _ in range(rng.choice([2, 2, 3]))) + ")"
+    if r < 0.53:
+        if rng.random() < 0.3:
+            return f"({g()} < {g()} <= {g()})"
+        return f"({g()} {rng.choice(CMPOPS)} {g()})"
+    if r < 0.65:
+        args = [g() for _ in range(rng.randint(0, 2))]
+        if rng.random() < 0.3:
+            args.append(f"k={g()}")
+        if rng.random() < 0.15:
+            args.insert(0, f"*{g()}")
+        if rng.random() < 0.15:
+            args.append(f"**{g()}")
+        return f"{rng.choice(['g', 'x.m', 'int', '(' + g() + ')'])}({', '.join(args)})"
+    if r < 0.71:
+        return f"({g()}).{rng.choice(['y', 'z', 'real'])}"
+    if r < 0.77:
+        return f"({g()})[{rng.choice([g(), g() + ':' + g(), '::2', g() + ', ' + g()])}]"
+    if r < 0.85:
+        items = [g() for _ in range(rng.randint(0, 3))]
+        return "(" + ", ".join(items) + ("," if len(items) == 1 else "") + ")"
+    if r < 0.90:
+        k = rng.random()
+        if k < 0.4:
+            return "[" + ", ".join(g() for _ in range(rng.randint(0, 2))) + "]"
+        if k < 0.7:
+            return "{" + ", ".join(f"{g()}: {g()}" for _ in range(rng.randint(0, 2))) + "}"
+        return "{" + ", ".join(g() for _ in range(rng.randint(1, 2))) + "}"
+    if r < 0.94:
+        return f"({g()} if {g()} else {g()})"
+    if r < 0.97:
+        return f"(lambda{rng.choice(['', ' p', ' p, q=1', ' *p'])}: {g()})"
+    inner = rng.choice(["x", "y", "x.y", "1", "x + 1"])
+    return rng.choice(['f"{%s}"', 'f"{%s!r}"', 'f"{%s:>3}"', 'f"{%s:>4}"', 'f"a{%s}b"', 'f"{%s!s:>3}"']) % inner
+
+
+def canon(text):
+    """Minimal-parenthesis source of the same tree (CPython's own unparser), or None when it does not parse."""
+    try:
+        return ast.unparse(ast.parse(text, mode="eval").body)
+    except (SyntaxError, ValueError, RecursionError, MemoryError):
+        return None
+
+
+def gen_default(rng):
+    for _ in range(20):
+        t = canon(gen_expr(rng, rng.choice([1, 2, 2, 3]), arith=rng.random() < 0.4))
+        if t and len(t) < 120:
+            return t
+    return "1"
+
+
+def _tokens(text):
+    return [t for t in tokenize.generate_tokens(io.StringIO(text).readline) if t.type not in (tokenize.NEWLINE, tokenize.ENDMARKER, tokenize.NL)]
+
+
+def regroup(rng, text):
+    """Insert or remove one pair of parentheses in the source; keeps the token order, may change the tree."""
+    try:
+        toks = _tokens(text)
+    except (tokenize.TokenError, IndentationError, SyntaxError):
+        return None
+    strs = [t.string for t in toks]
+    for _ in range(12):
+        s = list(strs)
+        opens = [i for i, x in enumerate(s) if x == "("]
+        if opens and rng.random() < 0.5:
+            i = rng.choice(opens)
+            depth, j = 0, i
+            while j < len(s):
+                depth += s[j] == "("
+                depth -= s[j] == ")"
+                if depth == 0:
+                    break
+                j += 1
+            if j >= len(s):
+                continue
+            del s[j], s[i]
+        else:
+            i = rng.randrange(len(s))
+            j = rng.randrange(i, len(s))
+            s.insert(j + 1, ")")
+            s.insert(i, "(")
+        cand = " ".join(s)
+        if valid_default(cand):
+            return cand
+    return None
+
+
+def valid_default(text):
+    """The text can stand after `=` in a parameter list and is read there as the same expression."""
+    try:
+        e = ast.parse(text, mode="eval").body
+        a = ast.parse(f"def f(a={text}): pass").body[0].args
+    except (SyntaxError, ValueError, RecursionError, MemoryError):
+        return False
+    return len(a.args) == 1 and not a.kwonlyargs and not a.vararg and not a.kwarg and len(a.defaults) == 1 and ast.dump(a.defaults[0]) == ast.dump(e)
+
+
+def mutate_default(rng, text):
+    """-> (kind of edit, new source)."""
+    try:
+        return _mutate_default(rng, text)
+    except Exception:  # noqa: BLE001  (an edit that yields a tree the unparser rejects, e.g. inside an f-string)
+        return "same", text
+
+
+def _mutate_default(rng, text):
+    r = rng.random()
+    if r < 0.40:
+        for _ in range(6):
+            c = regroup(rng, text)
+            if c is not None:
+                cc = canon(c)
+                if cc is None:
+                    continue
+                same = ast.dump(ast.parse(c, mode="eval")) == ast.dump(ast.parse(text, mode="eval"))
+                # a redundant pair is kept in the source (layout-only change); a regrouping is re-rendered minimally
+                return ("parens-redundant", c) if same else ("regroup", cc)
+        return "same", text
+    tree = ast.parse(text, mode="eval")
+    nodes = [n for n in ast.walk(tree.body)]
+    if r < 0.55:
+        leaves = [n for n in nodes if isinstance(n, (ast.Constant, ast.Name))]
+        if leaves:
+            n = rng.choice(leaves)
+            new = ast.parse(rng.choice(INTS + ["x", "y", "'x'"]), mode="eval").body
+            _replace(tree, n, new)
+            return "leaf", ast.unparse(tree.body)
+    if r < 0.68:
+        ops = [n for n in nodes if isinstance(n, (ast.BinOp, ast.UnaryOp, ast.BoolOp))]
+        if ops:
+            n = rng.choice(ops)
+            if isinstance(n, ast.BinOp):
+                n.op = rng.choice([ast.Add(), ast.Sub(), ast.Mult(), ast.FloorDiv(), ast.Pow(), ast.BitOr()])
+            elif isinstance(n, ast.UnaryOp):
+                n.op = rng.choice([ast.USub(), ast.UAdd(), ast.Invert(), ast.Not()])
+            else:
+                n.op = ast.Or() if isinstance(n.op, ast.And) else ast.And()
+            return "operator", ast.unparse(tree.body)
+    if r < 0.76:
+        bins = [n for n in nodes if isinstance(n, ast.BinOp)]
+        if bins:
+            n = rng.choice(bins)
+            n.left, n.right = n.right, n.left
+            return "swap", ast.unparse(tree.body)
+    if r < 0.86:
+        w = rng.choice(["g(%s)", "(%s).y", "(%s,)", "-(%s)", "(%s) + 1", "[%s]", "not (%s)", "(%s)()"])
+        return "wrap", canon(w % text) or text
+    if r < 0.93:
+        names = [n for n in nodes if isinstance(n, ast.Name)]
+        strs = [n for n in nodes if isinstance(n, ast.Constant) and isinstance(n.value, str)]
+        if names or strs:
+            n = rng.choice(names + strs)
+            try:
+                new = ast.Constant(n.id) if isinstance(n, ast.Name) else ast.Name(n.value if n.value.isidentifier() else "x", ast.Load())
+                _replace(tree, n, new)
+                return "retype", ast.unparse(ast.fix_missing_locations(tree).body)
+            except Exception:  # noqa: BLE001
+                pass
+    fmts = [n for n in nodes if isinstance(n, ast.FormattedValue)]
+    if fmts:
+        n = rng.choice(fmts)
+        if rng.random() < 0.5:
+            n.conversion = rng.choice([c for c in (-1, 114, 115, 97) if c != n.conversion])
+        else:
+            n.format_spec = None if n.format_spec is not None else ast.JoinedStr([ast.Constant(">3")])
+        return "fmt", ast.unparse(ast.fix_missing_locations(tree).body)
+    return "fresh", gen_default(rng)
+
+
+def _replace(tree, old, new):
+    for parent in ast.walk(tree):
+        for name, val in ast.iter_fields(parent):
+            if val is old:
+                setattr(parent, name, new)
+                return
+            if isinstance(val, list):
+                for i, x in enumerate(val):
+                    if x is old:
+                        val[i] = new
+                        return
+
+
+FORMS = """1|2|-1|+1|~1|not x|1 + 2|1 + 2 * 3|(1 + 2) * 3|60 * (2 + 3)|60 * 2 + 3|10 - (2 - 1)|10 - 2 - 1|(-2) ** 2|-2 ** 2|2 ** 3 ** 2|(2 ** 3) ** 2
+not (x and y)|not x and y|(x or y) and z|x or y and z|x|y|'x'|b'x'|x.y|x.z|x.y.z|x()|x(1)|x(1, 2)|x(a=1)|x(b=1)|x(*y)|x(**y)|x.y()|x().y|(1, 2)|(1, (2,))|((1, 2),)|(1,)|()
+[1, 2]|[]|{}|{1: 2}|{1, 2}|{**x}|{None: x}|x[1]|x[1:2]|x[1, 2]|x[1:2, 3]|x[1:2:3]|x[::2]|x[:]|x if y else z|(x if y else z) if a else b|x if y else (z if a else b)|x if (y if z else a) else b
+lambda: 1|lambda a: a|lambda *a: a|lambda a=1: a|lambda a=(1, 2): a|lambda a, /: a|lambda *, a: a|f"{x}"|f"{x!r}"|f"{x:>3}"|f"{x:>4}"|f"a{x}b"|f"a{x}c"|"ab"|"a b"|1 < 2|1 < 2 < 3|(1 < 2) < 3|1 < (2 < 3)|1 is 2|1 is not 2
+x in y|x not in y|not x in y|(yield)|[a for a in x]|[a for a in x if a]|[a for a in y]|(a for a in x)|{a for a in x}|{a: a for a in x}|(a := 1)|x @ y|x // y|x / y|x % y|x << y|x >> y|x & y|x | y|x ^ y
+1.0|1e400|1j|None|True|False|...|16|10|-x|--x|not not x|x, *y|(x if y else z,)|x + -y|x - -y|-(x + y)|-x + y|(x, y)[0]|x[y][z]|x[y[z]]|g(x)(y)|g(x(y))|x and y or z|x and (y or z)|1 - 2 + 3|1 - (2 + 3)|2 * 3 // 4|2 * (3 // 4)""".replace("\n", "|").split("|")
+
+
+# ------------------------------------------------------------------------------------------------ calls
+def call_shapes():
+    base = [(n, kw) for n in range(6) for r in range(4) for kw in itertools.combinations(NAMES, r)]
+    dups = [(n, (k, k)) for n in range(3) for k in NAMES[:3]] + [(1, ("a", "b", "a")), (0, ("z", "z"))]
+    return base + dups
+
+
+CALLS = call_shapes()
+
+
+def do_call(f, n, kw):
+    first, rest = {}, []
+    for k in kw:
+        if k in first:
+            rest.append(k)
+        else:
+            first[k] = 0
+    if not rest:
+        return f(*range(n), **first)
+    return f(*range(n), **first, **{k: 0 for k in rest})
+
+
+def binds_real(f, n, kw):
+    try:
+        do_call(f, n, kw)
+        return True
+    except TypeError:
+        return False
 
 
 class Cache:
@@ -123,24 +529,20 @@ class Cache:
         return self.mod[sig]
 
     def pyf(self, sig):
-        if sig not in self.fn:
+        """The compiled definition; default values play no part in binding, so they are replaced by 0."""
+        key = tuple((nm, k, bool(d)) for nm, k, d in sig)
+        if key not in self.fn:
             ns = {}
-            exec(compile(src(sig), "<c10>", "exec", dont_inherit=True), ns)
-            self.fn[sig] = ns["f"]
-        return self.fn[sig]
+            exec(compile(src(sig, plain=True), "<c10>", "exec", dont_inherit=True), ns)  # noqa: S102
+            self.fn[key] = ns["f"]
+        return self.fn[key]
 
     def bindset(self, sig):
-        if sig not in self.bind:
+        key = tuple((nm, k, bool(d)) for nm, k, d in sig)
+        if key not in self.bind:
             f = self.pyf(sig)
-            ok = set()
-            for n, kw in CALLS:
-                try:
-                    f(*range(n), **{k: 0 for k in kw})
-                    ok.add((n, kw))
-                except TypeError:
-                    pass
-            self.bind[sig] = frozenset(ok)
-        return self.bind[sig]
+            self.bind[key] = frozenset(c for c in CALLS if binds_real(f, *c))
+        return self.bind[key]
 
 
 KINDMAP = {"PARAMETER_REMOVED": "removed", "PARAMETER_CHANGED_REQUIRED": "required", "PARAMETER_MOVED": "moved",
@@ -160,57 +562,117 @@ def impl_diff(cache, old, new):
     return out
 
 
-def check_pairs(ctx, cache, pairs, stream):
-    res = ctx.model([["fdiff", enc(o), enc(n)] for o, n in pairs])
-    for (o, n), r in zip(pairs, res):
-        mdiff, gap, (f2, f4, f5, f6, f7), wf = r
+def fmt_call(call):
+    return f"f({', '.join([str(i) for i in range(call[0])] + [k + '=0' for k in call[1]])})"
+
+
+GAP_IDS = ["C10-F2", "C10-F4", "C10-F5", "C10-F6", "C10-F7"]
+
+
+def check_pairs(ctx, cache, pairs, stream, notes=None):
+    res = ctx.model([["xdiff", enc(o), enc(n)] for o, n in pairs])
+    for idx, ((o, n), r) in enumerate(zip(pairs, res)):
+        case = {"old": src(o), "new": src(n)}
+        if r == ["bad-input"]:
+            ctx.tie_failure("harness", "model rejected the encoded pair", case, case)
+            continue
+        mdiff, adiff, gaps, f8names, wf, just, gap, tdiff = r
         try:
             idiff = impl_diff(cache, o, n)
         except Exception as e:  # noqa: BLE001
             idiff = [["exception:" + type(e).__name__, -1]]
         broken = cache.bindset(o) - cache.bindset(n)
-        ctx.case({"old": src(o), "new": src(n)}, bool(broken) or bool(idiff))
-        ctx.observe("stream", stream)
-        ctx.observe("outcome", ("breaking" if broken else "compatible") + ("/reported" if idiff else "/silent"))
-        if wf != 1:
-            ctx.tie_failure("harness", "generator produced a signature the model calls ill-formed", {"old": src(o), "new": src(n)})
-        if sorted(mdiff) != sorted(idiff):
-            ctx.tie_failure("correspondence", "fdiff(model) vs find_breaking_changes", {"model": mdiff, "impl": idiff}, {"old": src(o), "new": src(n)})
-        for b in idiff:
-            ctx.observe("breakage", b[0])
-        if o == n and idiff:
-            ctx.property_failure({"old": src(o), "new": src(n)}, {"identical signatures reported": idiff})
-        if broken and not idiff:
-            # a known finding only when the faithful model of the unchanged code is silent too AND a gap predicate holds
-            fid = None if mdiff else ("C10-F2" if f2 else "C10-F4" if f4 else "C10-F5" if f5 else "C10-F6" if f6 else "C10-F7" if f7 else None)
-            call = sorted(broken)[0]
-            ctx.property_failure({"old": src(o), "new": src(n), "call": f"f({', '.join([str(i) for i in range(call[0])] + [k + '=0' for k in call[1]])})"},
-                                 {"reported": idiff, "broken_calls": len(broken)}, finding=fid)
-            ctx.observe("unreported", fid or "UNEXPLAINED")
-        # the three always-reported changes, evaluated on the implementation
-        rep = {(k, NAMES[pi]) for k, pi in idiff if pi >= 0}
-        for nm in set(p[0] for p in o) & set(p[0] for p in n):
-            (oi, (_, okd, od_)), (ni, (_, nkd, nd_)) = [(i, p) for i, p in enumerate(o) if p[0] == nm][0], [(i, p) for i, p in enumerate(n) if p[0] == nm][0]
-            if okd in ("PO", "PK") and nkd in ("PO", "PK") and oi != ni and ("moved", nm) not in rep:
-                ctx.property_failure({"old": src(o), "new": src(n)}, {"moved positional parameter not reported": nm, "reported": idiff})
-            if okd not in ("VP", "VK") and nkd not in ("VP", "VK") and od_ and nd_ and od_ != nd_ and ("default", nm) not in rep:
-                ctx.property_failure({"old": src(o), "new": src(n)}, {"changed default not reported": nm, "reported": idiff})
-            if (od_ or okd in ("VP", "VK")) and not nd_ and nkd not in ("VP", "VK") and ("required", nm) not in rep:
-                ctx.property_failure({"old": src(o), "new": src(n)}, {"optional parameter made required not reported": nm, "reported": idiff})
-        # soundness of reports: each names a parameter that differs
         od = {p[0]: (i, p) for i, p in enumerate(o)}
         nd = {p[0]: (i, p) for i, p in enumerate(n)}
+        # defaults: what CPython compiles for both sides
+        dchanged, dsame = [], []
+        for nm in od.keys() & nd.keys():
+            (_, (_, okd, odf)), (_, (_, nkd, ndf)) = od[nm], nd[nm]
+            if okd in ("VP", "VK") or nkd in ("VP", "VK") or not odf or not ndf:
+                continue
+            a, b = DInfo.of(odf), DInfo.of(ndf)
+            if (a.dump == b.dump) != (a.key == b.key):
+                ctx.tie_failure("harness", "abstraction python ast -> model tree is not injective w.r.t. ast.dump", {"old": odf, "new": ndf}, case)
+            (dsame if a.dump == b.dump else dchanged).append(nm)
+            if a.value and b.value and a.value != b.value:
+                ctx.observe("default_value", "computed value changed")
+                if a.dump == b.dump:
+                    ctx.tie_failure("harness", "same compiled default, different value", {"old": odf, "new": ndf}, case)
+            elif a.value and b.value and a.dump != b.dump:
+                ctx.observe("default_value", "other expression, same computed value")
+        ctx.case(case, bool(broken) or bool(idiff) or bool(dchanged))
+        ctx.observe("stream", stream)
+        if notes:
+            ctx.observe("default_edit", notes[idx])
+        ctx.observe("outcome", ("breaking" if broken else "compatible") + ("/reported" if idiff else "/silent"))
+        ctx.observe("params", f"{len(o)}->{len(n)}")
+        if wf != 1:
+            ctx.tie_failure("harness", "generator produced a signature the model calls ill-formed", case)
+        # (C) the model of the code vs the code
+        if sorted(mdiff) != sorted(idiff):
+            ctx.tie_failure("correspondence", "fdiff_m(model) vs find_breaking_changes", {"model": sorted(mdiff), "impl": sorted(idiff)}, case)
+        # (O) the model's authority key vs ast.dump
+        if sorted(NAMES[i] for k, i in adiff if k == "default") != sorted(dchanged):
+            ctx.tie_failure("oracle", "default changes by the model's ast key vs ast.dump", {"model": adiff, "ast.dump": sorted(dchanged)}, case)
+        if sorted(NAMES[i] for k, i in adiff if k == "default") != sorted(NAMES[i] for k, i in tdiff if k == "default"):
+            ctx.observe("keys", "text key coarser than compiled expression")
+        for b in idiff:
+            ctx.observe("breakage", b[0])
+        rep = {(k, NAMES[pi]) for k, pi in idiff if pi >= 0}
+        mrep = {(k, NAMES[pi]) for k, pi in mdiff}
+        # ---- the property, evaluated on the implementation ----
+        if o == n and idiff:
+            ctx.property_failure(case, {"identical signatures reported": idiff})
+        if broken and not idiff:
+            # a known finding only when the faithful model of the code is silent too AND one of its gap predicates holds
+            fid = None if mdiff else next((g for g, f in zip(GAP_IDS, gaps) if f), None)
+            call = sorted(broken)[0]
+            ctx.property_failure({**case, "call": fmt_call(call)}, {"reported": idiff, "broken_calls": len(broken)}, finding=fid)
+            ctx.observe("unreported", fid or "UNEXPLAINED")
+        for nm in dchanged:
+            ctx.observe("default_change", "reported" if ("default", nm) in rep else "unreported")
+            if ("default", nm) not in rep:
+                fid = "C10-F8" if (NAMES.index(nm) in f8names and ("default", nm) not in mrep) else None
+                a, b = DInfo.of(od[nm][1][2]), DInfo.of(nd[nm][1][2])
+                ctx.property_failure({**case, "parameter": nm},
+                                     {"changed default not reported": nm, "old_default": a.text, "new_default": b.text,
+                                      "values": [a.value, b.value], "reported": idiff}, finding=fid)
+        for nm in dsame:
+            if ("default", nm) in rep:
+                ctx.property_failure({**case, "parameter": nm}, {"default breakage although CPython compiles the same default": nm})
+        for nm in od.keys() & nd.keys():
+            (oi, (_, okd, od_)), (ni, (_, nkd, nd_)) = od[nm], nd[nm]
+            if okd in ("PO", "PK") and nkd in ("PO", "PK") and oi != ni and ("moved", nm) not in rep:
+                ctx.property_failure(case, {"moved positional parameter not reported": nm, "reported": idiff})
+            if (od_ or okd in ("VP", "VK")) and not nd_ and nkd not in ("VP", "VK") and ("required", nm) not in rep:
+                ctx.property_failure(case, {"optional parameter made required not reported": nm, "reported": idiff})
+        # soundness of reports: each names a parameter that differs (presence, kind, position, default text, required-ness)
         for k, pi in idiff:
             if pi < 0:
                 continue
             nm = NAMES[pi]
             if od.get(nm) == nd.get(nm):
-                ctx.property_failure({"old": src(o), "new": src(n)}, {"breakage names unchanged parameter": [k, nm]})
+                ctx.property_failure(case, {"breakage names unchanged parameter": [k, nm]})
+        # ---- justification of the model's reports: witness calls against the real binder ----
+        fo, fn = cache.pyf(o), cache.pyf(n)
+        for b, exc, wit in just:
+            ctx.observe("justification", b[0] + ("/excused" if exc else "/witness"))
+            if exc:
+                continue
+            if not wit:
+                ctx.tie_failure("oracle", "no witness call for a non-excused report", {"breakage": b}, case)
+                continue
+            wn, wk = wit[0]
+            fresh = max([NAMES.index(p[0]) for p in o + n] + [-1]) + 1
+            kw = tuple(NAMES[k] if k < len(NAMES) else f"fresh{k}" for k in wk)
+            if not (binds_real(fo, wn, kw) and not binds_real(fn, wn, kw)):
+                ctx.tie_failure("oracle", "witness call of a non-excused report does not separate old from new",
+                                {"breakage": b, "call": fmt_call((wn, kw)), "fresh": fresh}, case)
 
 
 def check_binder(ctx, cache, sgs):
     calls = [[n, [NAMES.index(k) for k in kw]] for n, kw in CALLS]
-    res = ctx.model([["binds", enc(s), calls] for s in sgs])
+    res = ctx.model([["binds", enc_plain(s), calls] for s in sgs])
     for s, r in zip(sgs, res):
         real = [1 if c in cache.bindset(s) else 0 for c in CALLS]
         ctx.count("binder_cases", len(CALLS))
@@ -219,20 +681,46 @@ def check_binder(ctx, cache, sgs):
             ctx.tie_failure("oracle", "binds(model) vs real CPython calls", {"signature": src(s), "calls": bad}, {"signature": src(s)})
 
 
+def check_dval(ctx, texts):
+    infos = [DInfo.of(t) for t in texts]
+    infos = [i for i in infos if i.value is not None]
+    res = ctx.model([["dval", i.sexp] for i in infos])
+    for i, r in zip(infos, res):
+        ctx.count("dval_cases")
+        want = [i.value[1]] if i.value[0] == "int" else []
+        ctx.observe("dval", i.value[0])
+        if r != want:
+            ctx.tie_failure("oracle", "dval(model) vs eval()", {"default": i.text, "model": r, "python": list(i.value)}, {"default": i.text})
+
+
 WITNESSES = {
-    "C10-F2": ((("a", "VP", 0), ("b", "VK", 0)), (("c", "PK", 1), ("a", "VP", 0), ("b", "VK", 0))),
-    "C10-F4": ((("a", "PO", 0), ("b", "VK", 0)), (("a", "PK", 0), ("b", "VK", 0))),
-    "C10-F5": ((("a", "PO", 0), ("b", "KO", 0)), (("b", "PK", 0), ("a", "VP", 0))),
-    "C10-F6": ((("c", "VP", 0), ("z", "VK", 0)), (("z", "PK", 2), ("c", "VP", 0), ("a", "VK", 0))),
-    "C10-F7": ((("c", "VP", 0), ("b", "VK", 0)), (("c", "PK", 1), ("a", "VP", 0), ("b", "VK", 0))),
+    "C10-F2": ("def f(*a, **b): pass", "def f(c=1, *a, **b): pass"),
+    "C10-F4": ("def f(a, /, **b): pass", "def f(a, **b): pass"),
+    "C10-F5": ("def f(a, /, *, b): pass", "def f(b, *a): pass"),
+    "C10-F6": ("def f(*c, **z): pass", "def f(z=2, *c, **a): pass"),
+    "C10-F7": ("def f(*c, **b): pass", "def f(c=1, *a, **b): pass"),
 }
+F8_WITNESS = ('def f(a=f"{x:>3}"): pass', 'def f(a=f"{x:>4}"): pass')
+
+
+def corpus_pairs():
+    p = framework.VERIF / "corpus" / "C10" / "cases.json"
+    if not p.exists():
+        return []
+    return [(parse_sig(c["old"]), parse_sig(c["new"])) for c in json.loads(p.read_text())["cases"]]
 
 
 def explore(ctx):
     cache = Cache()
     for fid, (o, n) in WITNESSES.items():
+        o, n = parse_sig(o), parse_sig(n)
         broken = cache.bindset(o) - cache.bindset(n)
         ctx.witness(fid, bool(broken) and not impl_diff(cache, o, n))
+    o8, n8 = parse_sig(F8_WITNESS[0]), parse_sig(F8_WITNESS[1])
+    ctx.witness("C10-F8", not impl_diff(cache, o8, n8))
+    cp = corpus_pairs()
+    if cp:
+        check_pairs(ctx, cache, cp, "corpus")
     S2 = sigs(2)
     check_binder(ctx, cache, S2)
     if ctx.quick:
@@ -252,22 +740,45 @@ def explore(ctx):
         n = random_sig(ctx.rng) if ctx.rng.random() < 0.4 else mutate(ctx.rng, o)
         rp.append((o, n))
     check_binder(ctx, cache, list({s for p in rp[:400] for s in p}))
-    check_pairs(ctx, cache, rp, "random<=4")
+    check_pairs(ctx, cache, rp, "random<=5")
+    # expression defaults
+    xp, notes = [], []
+    for _ in range(ctx.budget(4000, 40000)):
+        o = random_sig(ctx.rng, maxn=4, dgen=gen_default)
+        n, note = mutate_x(ctx.rng, o)
+        xp.append((o, n))
+        notes.append(note)
+    for i in range(0, len(xp), 10000):
+        check_pairs(ctx, cache, xp[i:i + 10000], "expression-defaults", notes[i:i + 10000])
+    texts = sorted({p[2] for s in itertools.chain.from_iterable(xp) for p in s if p[2]})
+    for t in texts:
+        for c in DInfo.of(t).classes:
+            ctx.observe("default_node", c)
+    check_dval(ctx, texts)
+    # catalogue of default forms: every ordered pair (quick: a seeded sample plus all identical pairs)
+    forms = [canon(f) for f in FORMS if canon(f) is not None and valid_default(canon(f))]
+    fp = [(f, g) for f in forms for g in forms]
+    if ctx.quick:
+        fp = [(f, f) for f in forms] + ctx.rng.sample(fp, 2500)
+    kind = ctx.rng.choice(["PO", "PK", "KO"])
+    check_pairs(ctx, cache, [((("a", kind, f),), (("a", kind, g),)) for f, g in fp], "default-forms")
+    check_dval(ctx, forms)
     if not ctx.quick:
         S3 = sigs(3)
         sub = ctx.rng.sample(S3, 400)
         check_pairs(ctx, cache, [(o, n) for o in sub for n in ctx.rng.sample(S3, 60)], "sampled<=3")
-        ctx.cross_check_extraction([["fdiff", enc(o), enc(n)] for o, n in rp[:40]])
-    # model-side statement sweep over the whole <=2 space: pairs on which `statement` is false must be none
-    Ks = [[NAMES.index(k) for k in kw] for r in range(4) for kw in itertools.combinations(NAMES, r)]
-    bad = ctx.model([["sweep", [enc(s) for s in S2], 3, Ks]])[0]
+        ctx.cross_check_extraction([["xdiff", enc(o), enc(n)] for o, n in rp[:25] + xp[:25]])
+    # model-side statement sweep over the whole <=2 space: pairs on which `statement_m` is false must be none
+    Ks = [[NAMES.index(k) for k in kw] for r in range(4) for kw in itertools.combinations(NAMES[:4], r)] + [[0, 0], [1, 3, 1]]
+    bad = ctx.model([["sweep", [enc_plain(s) for s in S2], 3, Ks]])[0]
     ctx.count("statement_sweep_pairs", len(S2) ** 2)
     for i, j in bad[:5]:
-        ctx.tie_failure("oracle", "statement(model) false on a pair: C10_complete_modulo_known would be refuted", {"old": src(S2[i]), "new": src(S2[j])})
+        ctx.tie_failure("oracle", "statement_m(model) false on a pair: C10_complete_modulo_known would be refuted", {"old": src(S2[i]), "new": src(S2[j])})
 
 
-def mutate(rng, sig):
+def mutate(rng, sig, dgen=None):
     s = list(sig)
+    pick = (lambda: dgen(rng)) if dgen else (lambda: rng.choice(["1", "2"]))
     for _ in range(rng.randint(1, 2)):
         r = rng.random()
         if s and r < 0.3:
@@ -276,65 +787,120 @@ def mutate(rng, sig):
             s[i] = (nm, rng.choice(KN), d)
         elif s and r < 0.45:
             s.pop(rng.randrange(len(s)))
-        elif r < 0.65 and len(s) < 4:
+        elif r < 0.65 and len(s) < 5:
             free = [x for x in NAMES if x not in [p[0] for p in s]]
             if free:
-                s.insert(rng.randint(0, len(s)), (rng.choice(free), rng.choice(KN), rng.choice([0, 1])))
+                s.insert(rng.randint(0, len(s)), (rng.choice(free), rng.choice(KN), rng.choice([0, pick()])))
         elif s and r < 0.8:
             i = rng.randrange(len(s))
             nm, k, d = s[i]
-            s[i] = (nm, k, rng.choice([0, 1, 2]))
+            s[i] = (nm, k, rng.choice([0, pick(), pick()]))
         elif len(s) > 1:
             i, j = rng.sample(range(len(s)), 2)
             s[i], s[j] = (s[j][0], s[i][1], s[i][2]), (s[i][0], s[j][1], s[j][2])
-    # normalise to a well-formed signature
-    order = {k: i for i, k in enumerate(KN)}
-    s.sort(key=lambda p: order[p[1]])
-    out, seen_def, vp, vk = [], False, False, False
-    for nm, k, d in s:
-        if k == "VP":
-            if vp:
-                continue
-            vp, d = True, 0
-        if k == "VK":
-            if vk:
-                continue
-            vk, d = True, 0
-        if k in ("PO", "PK"):
-            if seen_def and not d:
-                d = 1
-            seen_def = seen_def or bool(d)
-        out.append((nm, k, d))
-    return tuple(out)
+    return normalise(s, pick())
+
+
+def mutate_x(rng, sig):
+    """Expression-default stream: usually keep the shape and edit one default's expression."""
+    s = sig
+    note = []
+    if rng.random() < 0.3:
+        s = mutate(rng, s, gen_default)
+        note.append("shape")
+    with_d = [i for i, p in enumerate(s) if p[2]]
+    if with_d and rng.random() < 0.85:
+        s = list(s)
+        for i in rng.sample(with_d, min(len(with_d), rng.choice([1, 1, 2]))):
+            kind, new = mutate_default(rng, s[i][2])
+            if new is None or not valid_default(new) or len(new) > 160:
+                kind, new = "same", s[i][2]
+            s[i] = (s[i][0], s[i][1], new)
+            note.append(kind)
+        s = tuple(s)
+    return s, "+".join(note) or "none"
 
 
 def search(ctx):
-    """Implementation vs CPython only (no model): any unreported breaking pair outside the *python mirror* of the gap predicates."""
+    """Implementation vs CPython only (no model): an unreported breaking pair outside the *python mirror* of the gap predicates,
+    or a changed default that is not reported."""
     cache = Cache()
+    try:
+        collision, lossy = c10_tables.rules_info()
+    except Exception:  # noqa: BLE001
+        collision, lossy = False, True
+    forms = [canon(f) for f in FORMS if canon(f) is not None and valid_default(canon(f))]
+    rng = ctx.rng
+    cands = [(f, g) for f in forms for g in forms if f != g]
+    for _ in range(3000):
+        t = gen_default(rng)
+        k, u = mutate_default(rng, t)
+        if u and valid_default(u):
+            cands.append((t, u))
+    for f, g in cands:
+        a, b = DInfo.of(f), DInfo.of(g)
+        if a.dump == b.dump:
+            continue
+        o, n = (("a", "PK", f),), (("a", "PK", g),)
+        ctx.evaluations += 1
+        try:
+            d = impl_diff(cache, o, n)
+        except Exception:  # noqa: BLE001
+            continue
+        if ["default", 0] not in d and not (lossy and py_f8(a.tree, b.tree)):
+            ctx.property_failure({"old": src(o), "new": src(n), "parameter": "a"}, {"changed default not reported": "a", "values": [a.value, b.value], "reported": d})
+            return
     S2 = sigs(2)
-    for o in S2:
-        for n in S2:
-            broken = cache.bindset(o) - cache.bindset(n)
-            if not broken:
-                continue
-            ctx.evaluations += 1
-            if not impl_diff(cache, o, n) and not py_known_gap(o, n):
-                call = sorted(broken)[0]
-                ctx.property_failure({"old": src(o), "new": src(n), "call": repr(call)}, {"reported": []})
+    pool = [(o, n) for o in S2 for n in S2]
+    extra = []
+    for _ in range(20000):
+        o = random_sig(rng)
+        extra.append((o, mutate(rng, o)))
+    for o, n in itertools.chain(extra, pool):
+        broken = cache.bindset(o) - cache.bindset(n)
+        ctx.evaluations += 1
+        d = impl_diff(cache, o, n)
+        od = {p[0]: (i, p) for i, p in enumerate(o)}
+        nd = {p[0]: (i, p) for i, p in enumerate(n)}
+        rep = {(k, NAMES[pi]) for k, pi in d if pi >= 0}
+        for nm in od.keys() & nd.keys():
+            (oi, (_, okd, od_)), (ni, (_, nkd, nd_)) = od[nm], nd[nm]
+            if okd in ("PO", "PK") and nkd in ("PO", "PK") and oi != ni and ("moved", nm) not in rep:
+                ctx.property_failure({"old": src(o), "new": src(n)}, {"moved positional parameter not reported": nm, "reported": d})
                 return
+            if (od_ or okd in ("VP", "VK")) and not nd_ and nkd not in ("VP", "VK") and ("required", nm) not in rep:
+                ctx.property_failure({"old": src(o), "new": src(n)}, {"optional parameter made required not reported": nm, "reported": d})
+                return
+        if broken and not d and not py_known_gap(o, n, collision):
+            call = sorted(broken)[0]
+            ctx.property_failure({"old": src(o), "new": src(n), "call": fmt_call(call)}, {"reported": []})
+            return
         if ctx.elapsed() > 900:
             return
 
 
-def py_known_gap(o, n):
-    """Python mirror of F2/F4/F5 (Model/C10_diff.v), used only when the model cannot be run."""
+def py_f8(a, b):
+    """Python mirror of F8: the two default trees differ only in conversion / format spec of f-string replacement fields."""
+    def strip(t):
+        t = ast.parse(ast.unparse(t), mode="eval").body
+        for n in ast.walk(t):
+            if isinstance(n, ast.FormattedValue):
+                n.conversion, n.format_spec = -1, None
+        return ast.dump(t)
+    return strip(a) == strip(b)
+
+
+def py_known_gap(o, n, collision=False):
+    """Python mirror of the gap predicates (Model/C10_diff.v), used only when the model cannot be run."""
     on = {p[0]: (i, p) for i, p in enumerate(o)}
     nn = {p[0]: (i, p) for i, p in enumerate(n)}
     ovk = any(p[1] == "VK" for p in o)
     ovp = any(p[1] == "VP" for p in o)
     npos = sum(1 for p in o if p[1] in ("PO", "PK"))
-    more = lambda i: i < npos or ovp
+    more = lambda i: i < npos or ovp  # noqa: E731
     f2 = ovk and any(p[1] == "PK" and p[2] and nm not in on and more(i) for nm, (i, p) in nn.items())
+    if collision:
+        return f2
     f4 = ovk and any(p[1] == "PO" and nm in nn and nn[nm][1][1] == "PK" for nm, (i, p) in on.items())
     f5 = any(p[1] == "KO" and nm in nn and nn[nm][1][1] == "PK" and more(nn[nm][0]) for nm, (i, p) in on.items())
     f6 = any(p[1] == "VK" for p in n) and any(p[1] == "VK" and nm in nn and nn[nm][1][1] == "PK" and more(nn[nm][0]) for nm, (i, p) in on.items())
@@ -351,5 +917,12 @@ def replay(ctx, data):
     o = griffe.visit("m", filepath=None, code=case["old"] + "\n")
     n = griffe.visit("m", filepath=None, code=case["new"] + "\n")
     print(case)
-    print("find_breaking_changes:", [b.kind.value for b in griffe.find_breaking_changes(o, n)])
+    print("find_breaking_changes:", [(b.kind.value, getattr(b.old_value, "name", None) or getattr(b.new_value, "name", None)) for b in griffe.find_breaking_changes(o, n)])
+    so, sn = parse_sig(case["old"]), parse_sig(case["new"])
+    cache = Cache()
+    broken = sorted(cache.bindset(so) - cache.bindset(sn))
+    print("calls bound by old and rejected by new:", [fmt_call(c) for c in broken[:5]])
+    for (nm, k, d), (nm2, k2, d2) in itertools.product(so, sn):
+        if nm == nm2 and d and d2 and DInfo.of(d).dump != DInfo.of(d2).dump:
+            print(f"default of {nm}: {d!r} -> {d2!r}; computed: {DInfo.of(d).value} -> {DInfo.of(d2).value}")
     return 0
